@@ -17,7 +17,13 @@ static unsigned long zcode(unsigned long x, unsigned long y) { /* independent bi
 VERIF_MAIN {
   unsigned long n = (NPTS_MIN) == (MAXPTS) ? (unsigned long) (MAXPTS) : (unsigned long) IN(NPTS_MIN, MAXPTS);
   ct_t pts[2 * MAXPTS]; ct_t q[4]; unsigned long out[1 + 2 * MAXOUT];
+#ifdef FIXED_PTS
+  /* one concrete point set (stated in the job), EVERY query point / box symbolic */
+  static const ct_t fixed_pts[2 * MAXPTS] = { FIXED_PTS };
+  for (int i = 0; i < 2 * MAXPTS; i++) pts[i] = fixed_pts[i];
+#else
   for (int i = 0; i < 2 * MAXPTS; i++) pts[i] = (ct_t) IN(0, CMAX);
+#endif
   for (int i = 0; i < 1 + 2 * MAXOUT; i++) out[i] = 0;
 #if MODE == 0
   q[0] = (ct_t) IN(0, CMAX); q[1] = (ct_t) IN(0, CMAX); q[2] = q[3] = 0;
